@@ -196,6 +196,27 @@ func c19GenNaNKeys(r *rng, out *bufio.Writer, nData, perData int) {
 	}
 }
 
+// c19GenAliases: keyword-like symbol names (pgAliases) in sort lists and filters, against the object stores that declare them
+func c19GenAliases(r *rng, out *bufio.Writer, nData, perData int) {
+	for d := 0; d < nData; d++ {
+		n := 1 + r.intn(7)
+		ds := pgGenRows(r, n)
+		sp, lp := pgSkipPool(n), pgLimitPool(n)
+		for k := 0; k < perData; k++ {
+			skip, limit := "-", "-"
+			if r.chance(1, 3) {
+				skip, limit = pgPickPaging(r, sp, n, false), pgPickPaging(r, lp, n, true)
+			}
+			filter := "true"
+			if r.chance(1, 2) {
+				filter = pgAliasFilter(r)
+			}
+			order := pick(r, []string{"fwd", "rev", "map", "rot" + strconv.Itoa(r.intn(7))})
+			c19EmitV(out, ds, filter, pgGenAliasSort(r), skip, limit, order, pick(r, []string{"full", "full", "full", "noid", "sub"}))
+		}
+	}
+}
+
 func c19GenWide(r *rng, out *bufio.Writer, nData, perData int) {
 	for d := 0; d < nData; d++ {
 		n := r.intn(8)
@@ -276,8 +297,10 @@ func c19Gen(tier string, seed uint64, out *bufio.Writer) {
 	if tier == "thorough" {
 		c19GenWide(newRng(seed^0xC19A), out, 2500, 60)
 		c19GenNaNKeys(newRng(seed^0xC19B), out, 600, 30)
+		c19GenAliases(newRng(seed^0xC19C), out, 600, 30)
 	} else {
 		c19GenWide(newRng(seed^0xC19A), out, 150, 40)
 		c19GenNaNKeys(newRng(seed^0xC19B), out, 40, 25)
+		c19GenAliases(newRng(seed^0xC19C), out, 40, 30)
 	}
 }
